@@ -402,6 +402,9 @@ pub fn run(ctx: &'static Ctx) -> (&'static str, Value, Vec<&'static str>) {
             let n = short_read_check(ctx, "decode_volume_coverage_pattern", &bytes, cuts <= 3, |r: &mut SplitReader| vcp::decode_volume_coverage_pattern(r).ok(), |shape| json!({"op": "short_read", "plan": plan, "cuts": cuts, "boundaries": shape.0, "max_chunk": shape.1}));
             ssr.evaluations += n;
             ssr.count("short_read_shapes", n);
+            let n = crate::guard::two_actor_check(ctx, "decode_volume_coverage_pattern", &bytes, 32, |r: &mut SplitReader| vcp::decode_volume_coverage_pattern(r).ok(), |mode, k| json!({"op": "short_read", "plan": plan, "cuts": cuts, "mode": mode, "read_call": k}));
+            ssr.evaluations += n;
+            ssr.count("two_actor_schedules", n);
         }
     }
     let s16 = s16.merge(ssr);
